@@ -208,6 +208,8 @@ func main() {
 	optional("unescapeLabel", "project.go", "unescapeLabel")
 	optional("depStampsMarshal", "project.go", "depStamps.MarshalJSON")
 	optional("depStampsUnmarshal", "project.go", "depStamps.UnmarshalJSON")
+	// D32 repair: the digest of the lists a body sees through `self` (absent before the repair)
+	optional("fnAttrs", "function.go", "function.attrs")
 	depType := "(not found)"
 	for _, d := range files["project.go"].AST.Decls {
 		if gd, ok := d.(*ast.GenDecl); ok {
